@@ -260,6 +260,7 @@ def check_ic(ctx: Ctx, c: Dict[str, Any]) -> None:
         inv_lin = torch.cat([Ai, ti.unsqueeze(1)], dim=1).unsqueeze(0)
         fwd_flow = affine_field(n, ac, A - I, t)
         inv_flow = affine_field(n, ac, Ai - I, ti)
+        fwd_flow_non = fwd_flow  # the forward map as a dense field (paired with the forward matrix as a wrong 'inverse')
         x = g.coords(dtype=torch.float64)
         err_exp = (x.reshape(-1, D) @ EA.T + Et).reshape(x.shape)  # cube units
         for units in ("cube", "voxel", "world"):
@@ -289,6 +290,31 @@ def check_ic(ctx: Ctx, c: Dict[str, Any]) -> None:
                     ctx.violation(dict(**sig, what="reduction"), "'mean' is not the mean of 'none'", c)
             except Exception as ex:
                 ctx.violation(dict(**sig, what="units", exc=type(ex).__name__), f"raised {type(ex).__name__}: {str(ex)[:140]}", c)
+            # ... restricted by a foreground mask (zero error outside, mean over the foreground only) and by an integer margin
+            try:
+                exp = (err_exp * fac).norm(dim=-1)
+                mk = torch.zeros((1, 1) + tuple(reversed(n)), dtype=torch.float64)
+                mk[(0, 0) + tuple(slice(1, None) for _ in range(D))] = 1.0
+                em = L.inverse_consistency_loss(fwd_lin.clone(), fwd_lin.clone(), grid=g, units=units, mask=mk, reduction="none")
+                em = em[0] if em.ndim > exp.ndim else em
+                want = exp * mk[0, 0]
+                if max_err(em, want) > 1e-6 * max(1.0, float(exp.max())):
+                    ctx.violation(dict(**sig, what="mask"), f"masked inverse consistency error map ({units} units) differs from the unmasked one times the mask by {max_err(em, want):.3g}", c)
+                mm = L.inverse_consistency_loss(fwd_lin.clone(), fwd_lin.clone(), grid=g, units=units, mask=mk, reduction="mean")
+                wm = float(want.sum() / mk.sum())
+                if abs(float(mm) - wm) > 1e-6 * max(1.0, wm):
+                    ctx.violation(dict(**sig, what="mask_mean"), f"'mean' with a mask is {float(mm)}, the mean over the foreground is {wm}", c)
+                ms = L.inverse_consistency_loss(fwd_lin.clone(), fwd_lin.clone(), grid=g, units=units, mask=mk, reduction="sum")
+                if abs(float(ms) - float(want.sum())) > 1e-6 * max(1.0, float(want.sum())):
+                    ctx.violation(dict(**sig, what="mask_sum"), f"'sum' with a mask is {float(ms)}, expected {float(want.sum())}", c)
+                if min(n) >= 4:
+                    ei = L.inverse_consistency_loss(fwd_flow_non, fwd_lin.clone(), grid=g, units=units, margin=1, reduction="none")
+                    ei = ei[0] if ei.ndim > exp.ndim else ei
+                    wi = exp[tuple(slice(1, -1) for _ in range(D))]
+                    if tuple(ei.shape) != tuple(wi.shape) or max_err(ei, wi) > 1e-6 * max(1.0, float(exp.max())):
+                        ctx.violation(dict(**sig, what="int_margin"), f"with margin=1 the error map has shape {tuple(ei.shape)} / differs from the interior of the full map (expected shape {tuple(wi.shape)})", c)
+            except Exception as ex:
+                ctx.violation(dict(**sig, what="mask", exc=type(ex).__name__), f"raised {type(ex).__name__}: {str(ex)[:140]}", c)
         ctx.count(key=("ic", json.dumps(n), json.dumps(c["h"]), ac))
 
 
